@@ -1,0 +1,11 @@
+// SPDX-FileCopyrightText: 2026 The Pion community <https://pion.ly>
+// SPDX-License-Identifier: MIT
+
+//go:build verif
+
+package fmtp
+
+// VerifParseParameters exposes parseParameters (verification hook, C17).
+func VerifParseParameters(line string) map[string]string {
+	return parseParameters(line)
+}
